@@ -43,7 +43,7 @@ def mk(fname, H, W, box=None, fixed=None, symbolic_cells=None):
         sx.check(same_cells(ob1, ob2), 'observation-invariant-under-world-rotation',
                  f'pose {pose_c} q={q} area={area}: {ob1.grid.objects} vs {ob2.grid.objects}')
         sx.check(ob1.agent.position == ob2.agent.position and ob1.agent.orientation is ob2.agent.orientation
-                 and ob1.agent.grid_object is ob2.agent.grid_object, 'observed-agent-invariant')
+                 and ob1.agent.grid_object == ob2.agent.grid_object, 'observed-agent-invariant')
         if any(not isinstance(c, Hidden) for r in ob1.grid.objects for c in r) and any(isinstance(c, Hidden) for r in ob1.grid.objects for c in r):
             sx.cover('partly-hidden')
     return h
